@@ -83,6 +83,25 @@ def order_cases():
                                  {'run': 'play', 'cls': 'OpA', 'rec': 0, 'enabled': False, 'script': play_script,
                                   'clock': [5, 6, 7]}],
                         'expect': {'1': [['ret', '("rec-%s",1)' % want]]}, 'journal_expect': []})
+    # argument texts that contain alias texts: a key is "input: <alias> args=<encoded arguments>", the alias and the arguments
+    # are separate parts of it - a fallback key differs from the main key in the alias part ONLY
+    for q_alias, fb_alias, arg in [('config', 'settings', 'config'), ('config', 'settings', 'settings'), ('A', 'B', 'A'),
+                                   ('A', 'B', 'xAx'), ('load', 'fetch', 'input: load args='), ('a', 'b', 'args')]:
+        sites = {'rF': site(fb_alias), 'q': site(q_alias, fallbacks=[fb_alias], fallbacksAsFunction=(arg == 'A'),
+                                                 body=[{'op': 'ret', 'e': {'c': {'s': 'live'}}}])}
+        other = 'other-' + arg.replace(q_alias, fb_alias)
+        rec_script = [{'op': 'call', 's': 'rF', 'x': 'x0', 'args': [{'c': {'s': arg}}]},
+                      {'op': 'call', 's': 'rF', 'x': 'x1', 'args': [{'c': {'s': arg.replace(q_alias, fb_alias)}}]},
+                      {'op': 'call', 's': 'rF', 'x': 'x2', 'args': [{'c': {'s': other}}]}, {'op': 'ret', 'e': {'c': None}}]
+        play_script = [{'op': 'call', 's': 'q', 'x': 'y0', 'args': [{'c': {'s': arg}}]}, {'op': 'ret', 'e': {'v': 'y0'}}]
+        import json as _json
+        for cassette in ('memory', 'file'):
+            out.append({'cassette': cassette, 'classes': {'OpA': {'params': None, 'classLevel': False, 'hasExtractor': False}},
+                        'sites': sites,
+                        'runs': [{'run': 'op', 'cls': 'OpA', 'enabled': True, 'script': rec_script, 'draws': [], 'clock': [1, 2]},
+                                 {'run': 'play', 'cls': 'OpA', 'rec': 0, 'enabled': False, 'script': play_script,
+                                  'clock': [5, 6, 7]}],
+                        'expect': {'1': [['ret', '("rec-%s",%s)' % (fb_alias, _json.dumps(arg))]]}, 'journal_expect': []})
     # a resolved alias (one key space per value of the resolving argument) with fallback aliases: a call whose own key and
     # fallbacks are absent is a missing key, whatever other resolved aliases were looked up before it
     for fb, fbfn, cap in itertools.product([['Z'], ['Z', 'Y']], [False, True], ['none', [[1, 'p1']]]):
